@@ -143,9 +143,11 @@ class Database(KGLambda):
     def __call__(self, _, ctx):
         x = ctx[reserved_fn_symbol_map[reserved_fn_args[0]]]
 
-        # add the table column -> dataframe into local scope so DuckDB can reference them by name in the SQL.
+        # register every table's dataframe under its name so DuckDB can reference it in the SQL
+        # (names are not looked up among the local variables of this method: a table called
+        # x, k, v, df or e used to collide with them)
         for k,v in self.tables.items():
-            locals()[k] = v.get_dataframe()
+            self.con.register(k, v.get_dataframe())
 
         try:
             df = self.con.execute(x).fetchdf()
